@@ -72,6 +72,8 @@ def files():
     fb.method(b, "List", "Req", "Rsp")
     # the same RPC name in a second service: names must be resolved per service
     fb.method(b, "GetThing", "Req", "Rsp", http=("get", "/v1/{name=b/*}:thing"))
+    # a service that declares no RPC of its own still has clients, so it is listed (without rpcs)
+    fb.service("Gamma")
     return [fb.f]
 
 
@@ -111,6 +113,8 @@ def metadata(transport: int, selective: bool, k0: bool, k1: bool, k2: bool, kb: 
                     rp[m] = {"methods": [snake(name)]}
                 clients[kind] = {"libraryClient": cname, "rpcs": rp}
             exp_services[svc] = {"clients": clients}
+        exp_services["Gamma"] = {"clients": {kind: {"libraryClient": "Gamma" + ("AsyncClient" if kind == "grpc-async" else "Client")}
+                                             for kind in kinds}}
         exp = {"schema": "1.0", "comment": got.get("comment"), "language": "python", "protoPackage": PKG,
                "libraryPackage": "google.example.md_v1", "services": exp_services}
         return got == exp
